@@ -10,3 +10,6 @@ package routers
 //@ iface (Router).FindRoute (self, req)
 //@   ensures (result.2 == nil) <==> routeFound(req)
 //@   ensures result.2 == nil ==> routeWF(result.0)
+
+// the two routing errors are assigned once, in the package initialiser, and are not nil
+//@ global nonnil ErrPathNotFound ErrMethodNotAllowed
